@@ -21,7 +21,7 @@ func init() {
 		Explanation: "(R1) in everything reachable from request validation, graph construction, hashing, staging and planning, every explicit panic, every slice index derived from a request field, and every dereference of a nil-able request sub-message is either guarded in the same function or excluded by a validation check that is itself verified to exist (allow-table with the excluding check as a rule instance); " +
 			"R1 further requires: a stage number taken from the (tier-2) request indexes the staged module list only behind `stage < len(stages)` (the obligation is passed from every function indexing by a parameter to its callers); the product (SegmentNumber+1)*SegmentSize and the segment boundary following the stop block are guarded against wrap-around; a message field the client may leave out (type closure of the two request messages, oneof wrappers excluded) is dereferenced, in everything reachable from the two handlers, only behind a nil test or a verified precondition; " +
 			"(R2) the handlers validate the request before constructing the graph and answer a refused request with the invalid-argument error OF THEIR OWN PROTOCOL (connect error in the connect handler, grpc status in the grpc handler, a bsstream error only where toConnectError/toGRPCError maps it); toConnectError keeps the code of a wrapped connect error and gives Internal only to an error holding neither a connect nor a bsstream invalid-argument error; the plan is built only with stop > start or no stop; " +
-			"(R3) the only loop without a bound and the only recursion reachable are the layering loop and the ancestor hashing, both under the verified preconditions `graph acyclic` and `references exist with the right kind`; the size limits (100 modules, 30 inputs, 300 MB) are tested before any per-module allocation. R3 also requires that the graph tested for cycles holds an edge for every module reference the layering loop waits on (each map/store input and the block filter, self references included unless validation is verified to refuse them), looked up under the reference field itself (a helper may not return another name while the reference is present). Also (R3) validation looks references up under the raw reference field (getters only on the way). Also (R3) every hash computed by hashModule is stored in the cache before it is returned (linear recursion).",
+			"(R3) the only loop without a bound and the only recursion reachable are the layering loop and the ancestor hashing, both under the verified preconditions `graph acyclic` and `references exist with the right kind`; the size limits (100 modules, 30 inputs, 300 MB) are tested before any per-module allocation. R3 also requires that the graph tested for cycles holds an edge for every module reference the layering loop waits on (each map/store input and the block filter, self references included unless validation is verified to refuse them), looked up under the reference field itself (a helper may not return another name while the reference is present). Also (R3) validation looks references up under the raw reference field (getters only on the way). Also (R3) every hash computed by hashModule is stored in the cache before it is returned (linear recursion). Also (R2) the error-discipline contradiction rules are silent on manifest, service and pipeline.",
 		NotCovered:  "That the recorded preconditions really imply termination (self references through the external graph library), panics inside dependencies (bstream, yourbasic/graph, protobuf, dmetering: an unregistered metering plugin named by tier 1 makes dmetering.New panic), arithmetic on request numbers outside the two guarded sites (the segmenter rounds a block within one interval of 2^64 to a wrong, not crashing, range), allocation bounds of the external libraries.",
 		Assumptions: []string{"the protobuf decoder never leaves the inner message of a set oneof nil", "yourbasic/graph.Acyclic detects every cycle including self loops"},
 	})
@@ -288,6 +288,9 @@ func runC17(p *core.Prog, r *core.Report) {
 	// ------------------------------------------------------------------ R3
 	r.Guard("C17.R3", "reference-keys-raw", "validation looks up the reference field itself", func() { checkReferenceKeysRaw(p, r, "C17.R3") })
 	r.Guard("C17.R3", "hash-memoised", "hash recursion bounded by the cache", func() { checkHashMemoised(p, r, "C17.R3") })
+	r.GuardExact("C17.R2", "error-discipline", "errors and lookups are tested where they are produced", func() {
+		checkErrorDiscipline(p, r, "C17.R2", []string{"manifest", "service", "pipeline/exec", "pipeline"}, 100)
+	})
 	r.Guard("C17.R3", "bounded-work", "loops and recursion", func() {
 		cg := p.CallGraph(false)
 		reach := core.Reachable(cg, entries()...)
